@@ -1,6 +1,11 @@
 #!/bin/sh
-# Build the analysers offline from files on disk.
+# Build the analysers offline from files on disk (no network, no files outside /verif).
 set -e
 cd "$(dirname "$0")"
 export CARGO_NET_OFFLINE=true
-echo "setup: nothing to build yet"
+(cd engines/synjson && cargo build --offline --release -q)
+(cd engines/factdrv && cargo +nightly build --offline --release -q)
+test -x engines/synjson/target/release/synjson
+test -x engines/factdrv/target/release/factdrv
+mkdir -p evidence .cache
+echo "setup: engines built"
